@@ -21,6 +21,7 @@ static int real_mode, NT;
 static _Atomic int entered[64];
 static int *lead_cnt;           /* per use: number of threads that were told they are the leader */
 static _Atomic long early_cnt;
+static _Atomic int finished[64];
 
 unsigned verif_batch(unsigned d) { return d; }
 void verif_hook(unsigned p, uint64_t a, uint64_t b, uint64_t c, uint64_t d)
@@ -56,6 +57,7 @@ static void *worker(void *arg)
 		sync_thread_barrier();
 		/* a fast thread may run ahead into the next use: leave that entirely to the scheduler */
 	}
+	atomic_store(&finished[my_id], 1);
 	return NULL;
 }
 int main(int argc, char **argv)
@@ -82,6 +84,32 @@ int main(int argc, char **argv)
 	pthread_t th[64];
 	for(int i = 0; i < n; ++i)
 		pthread_create(&th[i], NULL, worker, (void *)(long)i);
+	if(real_mode) {
+		/* watchdog: with truly concurrent threads a stuck barrier is recognised by the absence of progress (no thread enters a new use
+		 * for a long time although the threads only spin); it is reported as an observation and the run is abandoned */
+		long last = -1;
+		int idle = 0;
+		for(;;) {
+			long sum = 0, done = 1;
+			for(int u = 0; u < n; ++u) {
+				sum += atomic_load(&entered[u]);
+				done &= atomic_load(&finished[u]);
+			}
+			if(done)
+				break;
+			if(sum == last) {
+				if(++idle >= 240) { /* 240 x 0.25 s = 60 s without any thread entering a new use */
+					fprintf(out, "{\"e\":\"Hang\",\"why\":\"no thread entered a new barrier use for 60 s (real threads, %ld uses entered in total)\"}\n", sum);
+					fflush(out);
+					_exit(0);
+				}
+			} else {
+				idle = 0;
+				last = sum;
+			}
+			usleep(250000);
+		}
+	}
 	for(int i = 0; i < n; ++i)
 		pthread_join(th[i], NULL);
 	if(real_mode) {
